@@ -7,6 +7,7 @@ package vh
 import (
 	"bytes"
 	"fmt"
+	"io"
 	"math"
 	"math/rand"
 	"path/filepath"
@@ -177,6 +178,13 @@ func TestDrv_C11(t *testing.T) {
 					var m vegeta.Metrics
 					for i, v := range arr {
 						m.Add(&vegeta.Result{Seq: uint64(i), Code: 200, Timestamp: time.Unix(1600000000, int64(i)), Latency: time.Duration(v)})
+						// reading a percentile or rendering a report in between (periodic reporting, a by-value snapshot) is an observation
+						if order == 2 && n >= 10 && (i == n/3 || i == n/2 || i == n-2) {
+							_ = m.Latencies.Quantile(0.5)
+							snap := m
+							snap.Close()
+							_ = vegeta.NewHDRHistogramPlotReporter(&m).Report(io.Discard)
+						}
 					}
 					m.Close()
 					if order == 1 {
